@@ -5,7 +5,8 @@
 //!   (1) rows(Q) = rows(Q AND p) + rows(Q AND NOT(p)) + rows(Q AND (p IS NULL))     [multisets]
 //!   (2) COUNT over Q = number of rows of Q
 //!   (3) DISTINCT Q = support of rows(Q)
-//!   (4) ORDER BY k SKIP s LIMIT n = rows s..s+n of the fully ordered result
+//!   (4) ORDER BY k SKIP s LIMIT n = rows s..s+n of the fully ordered result; without ORDER BY, over Q and every
+//!       Q WHERE p: SKIP s LIMIT n has min(n, max(0, |Q|-s)) rows, all of them rows of Q
 //!   (5) Q1 UNION ALL Q2 = concatenation of rows(Q1) and rows(Q2)
 //! and the same identities hold on line graphs of 2047 / 2048 / 2049 / 4097 nodes (scan, limit, distinct and
 //! aggregate state is carried across 2048-row chunks).
@@ -180,6 +181,53 @@ impl Ctx<'_> {
                     self.rejected += 1;
                 }
             }
+            // (4b) windows without ORDER BY, over Q and over every Q WHERE p: whatever order the engine produces,
+            // SKIP s LIMIT n has min(n, max(0, |Q| - s)) rows and every one of them is a row of Q (on the line graphs
+            // s and n also sit on the 2048-row chunk boundaries and on the boundaries of the filtered chunks)
+            let mut filters: Vec<(&str, String)> = vec![("unfiltered", String::new())];
+            for (_, p) in PREDS {
+                filters.push(("filtered", format!(" WHERE {p}")));
+            }
+            for (fname, wh) in &filters {
+                let t_q = format!("{pat}{wh} RETURN {ret}");
+                self.evals += 1;
+                let Ok(full) = q(self.db, lang, &t_q) else {
+                    self.rejected += 1;
+                    continue;
+                };
+                let (len, full_ms) = (full.len(), ms(&full));
+                let mut vals: Vec<usize> = vec![0, 1, 2, len.saturating_sub(1), len, len + 1];
+                if len > 256 {
+                    vals.extend([len / 2, 1023, 1024, 1025, 2047, 2048, 2049]);
+                }
+                vals.sort_unstable();
+                vals.dedup();
+                let mut windows: Vec<(Option<usize>, Option<usize>)> = vec![];
+                for &v in &vals {
+                    windows.push((Some(v), None));
+                    windows.push((None, Some(v)));
+                    windows.push((Some(v), Some(1)));
+                    windows.push((Some(v), Some(len)));
+                }
+                for (sk, li) in windows {
+                    let t_win = format!("{t_q}{}{}", sk.map(|s| format!(" SKIP {s}")).unwrap_or_default(), li.map(|n| format!(" LIMIT {n}")).unwrap_or_default());
+                    self.evals += 1;
+                    match q(self.db, lang, &t_win) {
+                        Ok(w) => {
+                            let (s, n) = (sk.unwrap_or(0), li.unwrap_or(usize::MAX));
+                            let want = len.saturating_sub(s).min(n);
+                            let wm = ms(&w);
+                            let foreign = wm.iter().any(|(k, c)| full_ms.get(k).copied().unwrap_or(0) < *c);
+                            if w.len() != want || foreign {
+                                let kind = if w.len() != want { "window-size" } else { "rows-not-from-Q" };
+                                let feat = if s >= len && len > 0 { "skip-beyond-end" } else if n == 0 { "limit-0" } else if s.saturating_add(n) > len { "window-past-end" } else { "inner-window" };
+                                self.v(lang, "window-unordered", bname, &format!("{fname}/{feat}"), kind, &[&t_q, &t_win], format!("{} rows for SKIP {sk:?} LIMIT {li:?} over {len} rows, expected {want}", w.len()));
+                            }
+                        }
+                        Err(_) => self.rejected += 1,
+                    }
+                }
+            }
             // (5) UNION ALL = concatenation
             for (b2name, pat2, ret2) in BASES.iter().filter(|b| b.2 == ret).take(3) {
                 let t2 = format!("{pat2} RETURN {ret2}");
@@ -235,7 +283,7 @@ fn run(args: vcore::Args) -> i32 {
     let kinds = if tier == vcore::Tier::Quick { GraphSpace::core_node_kinds().into_iter().take(5).collect() } else { GraphSpace::core_node_kinds() };
     let space = GraphSpace { max_nodes: 2, max_edges: tier.pick(2, 3), node_kinds: kinds, edge_kinds: GraphSpace::plain_edge_kinds() };
     let (graphs, _) = space.enumerate();
-    rep.rule = format!("every graph of {:?} x 6 base queries x 12 predicates x {{GQL, Cypher}}: partition / count / distinct / window (all s, n in {{0,1,2,len-1,len,len+1}}) / UNION ALL identities on the engine's own answers; plus the same identities on line graphs of 2047, 2048, 2049, 4097 nodes; distinct non-trivial = (graph, language, base query) with a non-empty answer", space.to_json());
+    rep.rule = format!("every graph of {:?} x 6 base queries x 12 predicates x {{GQL, Cypher}}: partition / count / distinct / window (all s, n in {{0,1,2,len-1,len,len+1}}; unordered windows over Q and Q WHERE p also at len/2, 1023..1025, 2047..2049) / UNION ALL identities on the engine's own answers; plus the same identities on line graphs of 2047, 2048, 2049, 4097 nodes; distinct non-trivial = (graph, language, base query) with a non-empty answer", space.to_json());
     let results = vcore::par_map(&graphs, vcore::cores(), |_, g| {
         let (db, _) = load(g);
         let gfeat = if g.edges.iter().any(|e| e.src == e.dst) { "self-loop" } else if g.nodes.iter().any(|n| !n.props.contains_key("p")) { "missing-property" } else { "plain" };
@@ -256,11 +304,11 @@ fn run(args: vcore::Args) -> i32 {
         }
     }
     let sizes: Vec<usize> = vec![2047, 2048, 2049, 4097];
-    let results = vcore::par_map(&sizes, 4, |_, n| {
+    let jobs: Vec<(usize, Lang)> = sizes.iter().flat_map(|n| [(*n, Lang::Gql), (*n, Lang::Cypher)]).collect();
+    let results = vcore::par_map(&jobs, 8, |_, (n, lang)| {
         let db = line_db(*n);
         let mut ctx = Ctx { db: &db, graph: json!({"line": n}), gfeat: "chunk-boundary", viols: vec![], evals: 0, rejected: 0, nontrivial: vec![] };
-        ctx.identities(Lang::Gql);
-        ctx.identities(Lang::Cypher);
+        ctx.identities(*lang);
         (ctx.viols, ctx.evals, ctx.rejected, ctx.nontrivial)
     });
     for (viols, evals, rej, nt) in results {
